@@ -206,6 +206,69 @@ def body(ctx, case):
         ctx.nontrivial(repr(case))
 
 
+# ---------------------------------------------------------------- the script around merge_layouts
+def strat_script():
+    from hypothesis import strategies as st
+    names = st.permutations(["zeta", "alpha", "Mid", "beta2", "10"])
+    return st.tuples(strat(), names)
+
+
+def body_script(ctx, case):
+    """user_scripts/merge_ocr_results.py main(): engine folders are given on the command line; the first one given is the
+    base (ids, geometry, winner on ties). Differential against merge_layouts applied to the same files in that order."""
+    import contextlib
+    import io
+    import shutil
+    import sys
+    import tempfile
+    from pero_ocr.core.layout import PageLayout
+    spec, names = case
+    spec = dict(spec, ids="page")
+    M = merge_module()
+    layouts = build_layouts(spec)
+    for pl in layouts:
+        for line in pl.lines_iterator():
+            if line.transcription is None:
+                line.transcription = ""
+            del line.verif_pos
+    d = tempfile.mkdtemp(prefix="verif-c19-")
+    try:
+        dirs = []
+        for pl, nm in zip(layouts, names):
+            p = os.path.join(d, nm)
+            os.makedirs(p)
+            pl.to_pagexml(os.path.join(p, "page.xml"))
+            pl.save_logits(os.path.join(p, "page.logits"))
+            dirs.append(p)
+
+        def load(p):
+            pl = PageLayout(file=os.path.join(p, "page.xml"))
+            pl.load_logits(os.path.join(p, "page.logits"))
+            return pl
+        with contextlib.redirect_stdout(io.StringIO()):
+            expect_layouts = [load(p) for p in dirs]
+            M.merge_layouts(expect_layouts)
+        want = [(l.id, l.transcription, list(l.characters), np.asarray(l.baseline).tolist()) for l in expect_layouts[0].lines_iterator()]
+        out = os.path.join(d, "out")
+        old = sys.argv
+        sys.argv = ["merge_ocr_results.py", "--output-path", out] + dirs
+        try:
+            with contextlib.redirect_stdout(io.StringIO()), contextlib.redirect_stderr(io.StringIO()):
+                ctx.must("merge_script_raises", M.main)
+        finally:
+            sys.argv = old
+        got_pl = load(out)
+        got = [(l.id, l.transcription, list(l.characters), np.asarray(l.baseline).tolist()) for l in got_pl.lines_iterator()]
+        ctx.check(got == want, "script_result_differs_from_merge_in_command_line_order",
+                  lambda: "folders %r: script %r, merge_layouts in that order %r" % (list(names[:len(dirs)]), got, want))
+        if len(dirs) >= 2 and list(names[:len(dirs)]) != sorted(names[:len(dirs)]):
+            ctx.event("folders_not_in_sorted_order")
+            ctx.nontrivial(("script", repr(case)))
+    finally:
+        shutil.rmtree(d, ignore_errors=True)
+
+
 UNITS = [
     Unit("merge", "given", body=body, strategy=strat, quick=800, thorough=10000),
+    Unit("script", "given", body=body_script, strategy=strat_script, quick=120, thorough=1500),
 ]
